@@ -26,63 +26,66 @@ Proof.
     rewrite shl1_mod64 by lia. symmetry. apply Z.shiftl_1_l.
 Qed.
 
+(* The proofs are SEMANTIC (unfold everything generated, one case per test, lia); see
+   design-notes/go2coq.md, robustness. *)
+Ltac norm32 := repeat match goal with |- context [?a mod 4294967296] => rewrite (Z.mod_small a 4294967296) by tlia end.
+Ltac c14_leaf :=
+  repeat rewrite bit64_eq in * by tlia; rewrite ?Z.gtb_ltb in *; norm32;
+  first [ tie_leaf | tuple_eq; repeat f_equal; tlia ].
+
 (* BitArray.SetBit *)
 Lemma gen_flexfec_SetBit_eq lo hi i : 0 <= i < 4294967296 ->
   g_util_BitArray_SetBit lo hi i = Flexfec.ba_set (lo, hi) i.
 Proof.
-  intros H. unfold g_util_BitArray_SetBit, Flexfec.ba_set. cbn [fst snd]. cbv zeta.
-  destruct (i <? 64) eqn:E.
-  - rewrite bit64_eq by lia. reflexivity.
-  - replace ((i - 64) mod 4294967296) with (i - 64) by lia. rewrite bit64_eq by lia. reflexivity.
+  intros H. gnorm. unfold Flexfec.ba_set. cbn [fst snd]. cbv beta iota zeta. split_ifs; c14_leaf.
 Qed.
 
 (* BitArray.GetBit (uint8 1 / 0 for the model's bool) *)
 Lemma gen_flexfec_GetBit_eq lo hi i : 0 <= i < 4294967296 ->
   g_util_BitArray_GetBit lo hi i = if Flexfec.ba_get (lo, hi) i then 1 else 0.
 Proof.
-  intros H. unfold g_util_BitArray_GetBit, Flexfec.ba_get. cbn [fst snd]. cbv zeta.
-  destruct (i <? 64) eqn:E.
-  - rewrite bit64_eq by lia. rewrite Z.gtb_ltb. reflexivity.
-  - replace ((i - 64) mod 4294967296) with (i - 64) by lia. rewrite bit64_eq by lia. rewrite Z.gtb_ltb. reflexivity.
+  intros H. gnorm. unfold Flexfec.ba_get. cbn [fst snd]. cbv beta iota zeta.
+  (* the word test first: the single-bit masks are rewritten per branch *)
+  destruct (i <? 64) eqn:E; cbv beta iota zeta; repeat rewrite bit64_eq by tlia; rewrite ?Z.gtb_ltb; norm32;
+    repeat rewrite bit64_eq by tlia; split_ifs; c14_leaf.
 Qed.
 
 (* BitArray.Reset *)
 Lemma gen_flexfec_Reset_eq : g_util_BitArray_Reset = Flexfec.ba_zero.
-Proof. reflexivity. Qed.
+Proof. first [ reflexivity | gnorm; unfold Flexfec.ba_zero; tie_cases ]. Qed.
 
 (* extractMask1 / extractMask2 / extractMask3_03 on a BitArray of two uint64 *)
 Lemma gen_flexfec_extractMask1_eq lo hi : 0 <= lo < 18446744073709551616 ->
   g_flexfec_extractMask1 lo = Flexfec.extract_mask1 (lo, hi).
 Proof.
-  intros H. unfold g_flexfec_extractMask1, Flexfec.extract_mask1. cbn [fst]. cbv zeta.
-  rewrite Z.shiftr_div_pow2 by lia. change (2 ^ 49) with 562949953421312. lia.
+  intros H. gnorm. unfold Flexfec.extract_mask1. cbn [fst].
+  rewrite ?Z.shiftr_div_pow2 by lia. change (2 ^ 49) with 562949953421312. tlia.
 Qed.
 
 Lemma gen_flexfec_extractMask2_eq lo hi :
   g_flexfec_extractMask2 lo = Flexfec.extract_mask2 (lo, hi).
 Proof.
-  unfold g_flexfec_extractMask2, Flexfec.extract_mask2. cbn [fst]. cbv zeta.
-  rewrite Z.shiftr_div_pow2 by lia. change (2 ^ 33) with 8589934592. lia.
+  gnorm. unfold Flexfec.extract_mask2. cbn [fst].
+  rewrite ?Z.shiftr_div_pow2 by lia. change (2 ^ 33) with 8589934592. tlia.
 Qed.
 
 Lemma gen_flexfec_extractMask3_03_eq lo hi :
   g_flexfec_extractMask3_03 lo hi = Flexfec.extract_mask3_03 (lo, hi).
-Proof. reflexivity. Qed.
+Proof. first [ reflexivity | gnorm; unfold Flexfec.extract_mask3_03; cbn [fst snd]; tie_cases ]. Qed.
 
+(* decodeMask: loop specification.  Any g_while over (i, r) that runs while i < bits, appends base + i when
+   bit bits-1-i of the mask is set, and advances i by one *)
 Lemma decode_while mask bits base (c : Z * list Z -> bool) (f : Z * list Z -> Z * list Z) :
   0 <= bits < 65536 -> 0 <= base < 65536 ->
-  (forall i r, c (i, r) = (i <? bits)) ->
-  (forall i r, f (i, r) = if Z.land (Z.shiftr mask (((bits - 1) mod 65536 - i) mod 65536)) 1 =? 1
-                          then ((i + 1) mod 65536, r ++ [(base + i) mod 65536]) else ((i + 1) mod 65536, r)) ->
+  (forall i r, 0 <= i < bits -> c (i, r) = true) ->
+  (forall i r, 0 <= i < bits -> f (i, r) = if Z.testbit mask (bits - 1 - i)
+                          then (i + 1, r ++ [(base + i) mod 65536]) else (i + 1, r)) ->
   forall n i r, 0 <= i -> bits - i = Z.of_nat n ->
     snd (g_while n c f (i, r)) =
       r ++ map (fun x => (base + x) mod 65536) (filter (fun x => Z.testbit mask (bits - 1 - x)) (zrange i n)).
 Proof.
   intros Hb Hs Hc Hf. induction n as [|n IH]; intros i r Hi E; [cbn; rewrite app_nil_r; reflexivity|].
-  cbn [g_while zrange filter]. rewrite Hc. replace (i <? bits) with true by lia. rewrite Hf.
-  rewrite land1_testbit, Z.shiftr_spec by lia.
-  replace (0 + ((bits - 1) mod 65536 - i) mod 65536) with (bits - 1 - i) by lia.
-  replace ((i + 1) mod 65536) with (i + 1) by lia.
+  cbn [g_while zrange filter]. rewrite Hc, Hf by lia.
   destruct (Z.testbit mask (bits - 1 - i)).
   - rewrite IH by lia. cbn [map]. rewrite <- app_assoc. reflexivity.
   - apply IH; lia.
@@ -93,10 +96,18 @@ Lemma gen_flexfec_decodeMask_eq mask bits base off : Z.of_nat bits < 65536 -> 0 
   g_flexfec_decodeMask mask (Z.of_nat bits) ((base + off) mod 65536) =
     map (fun p => (base + p) mod 65536) (FlexfecSpec.mask_pos mask bits off).
 Proof.
-  intros Hb Ho Hs. unfold g_flexfec_decodeMask, FlexfecSpec.mask_pos, g_zeros. cbv zeta. cbn [Z.to_nat repeat].
+  intros Hb Ho Hs. gnorm. unfold FlexfecSpec.mask_pos, g_zeros. cbn [Z.to_nat repeat].
   match goal with |- context [g_while ?n ?c ?f ?s] =>
+    assert (Hc : forall i r, 0 <= i < Z.of_nat bits -> c (i, r) = true) by (intros; cbv beta iota zeta; tlia);
+    assert (Hf : forall i r, 0 <= i < Z.of_nat bits ->
+              f (i, r) = if Z.testbit mask (Z.of_nat bits - 1 - i)
+                         then (i + 1, r ++ [((base + off) mod 65536 + i) mod 65536]) else (i + 1, r))
+      by (intros i r Hi; cbv beta iota zeta; rewrite ?land1_testbit, ?Z.shiftr_spec by tlia;
+          repeat match goal with |- context [Z.testbit mask ?e] =>
+                   progress replace e with (Z.of_nat bits - 1 - i) by tlia end;
+          replace ((i + 1) mod 65536) with (i + 1) by tlia; split_ifs; tie_leaf);
     pose proof (decode_while mask (Z.of_nat bits) ((base + off) mod 65536) c f ltac:(lia) ltac:(lia)
-                  (fun _ _ => eq_refl) (fun _ _ => eq_refl) n 0 [] ltac:(lia) ltac:(lia)) as W;
+                  Hc Hf n 0 [] ltac:(lia) ltac:(lia)) as W;
     destruct (g_while n c f s) as [i1 r1] end.
   cbn [snd app] in W. rewrite W. replace (Z.to_nat (Z.of_nat bits - 0)) with bits by lia.
   rewrite map_map. apply map_ext. intros x. lia.
